@@ -32,6 +32,9 @@ pub enum Request {
     AllocBeyond,
     Exit(i32),
     Large(Vec<u8>),
+    /// Hold this many bytes of tracked memory at once, then release them
+    /// (used by the C19 check to observe `memory_used`).
+    Hold(u64),
 }
 
 #[derive(Serialize, Deserialize, Debug, PartialEq, Eq, Clone)]
@@ -40,6 +43,7 @@ pub enum Reply {
     Slept(u64),
     Echo(u64, Vec<u8>),
     Survived,
+    Held(u64),
 }
 
 pub struct TestSvc {
@@ -108,6 +112,18 @@ impl Service for TestSvc {
                 Reply::Survived
             }
             Request::Exit(code) => simkit::shim::child::exit(code),
+            Request::Hold(k) => {
+                let layout = Layout::from_size_align(k.max(1) as usize, 8).unwrap();
+                let q = unsafe { alloc.alloc(layout) };
+                if q.is_null() {
+                    simkit::shim::child::abort();
+                }
+                unsafe {
+                    *q = 1;
+                    alloc.dealloc(q, layout);
+                }
+                Reply::Held(k)
+            }
             Request::Large(data) => {
                 let sum: u64 = data.iter().map(|b| *b as u64).sum();
                 let back: Vec<u8> = data.iter().map(|b| b ^ 0x5a).collect();
@@ -119,7 +135,7 @@ impl Service for TestSvc {
     }
 }
 
-fn child_main(_args: Vec<OsString>) {
+pub(crate) fn child_main(_args: Vec<OsString>) {
     let alloc = Arc::new(Alloc::new(usize::MAX));
     CHILD_ALLOC.with(|a| *a.borrow_mut() = Some(alloc.clone()));
     struct Clear;
@@ -973,6 +989,7 @@ fn obs_code(o: &Obs) -> u64 {
         Obs::Ok(Reply::Slept(_)) => 2,
         Obs::Ok(Reply::Echo(s, _)) => 3000 + *s,
         Obs::Ok(Reply::Survived) => 4,
+        Obs::Ok(Reply::Held(k)) => 9000 + *k,
         Obs::Panic(_) => 5,
         Obs::Timeout(_) => 6,
         Obs::Crashed => 7,
